@@ -1,6 +1,7 @@
 package main
 
 import (
+	"go/constant"
 	"fmt"
 	"go/ast"
 	"go/token"
@@ -1362,7 +1363,7 @@ func (fx *FuncCtx) plainVariadic(st *State, a ssa.Value, v *Val) ([]*Val, bool) 
 	} else if it, ok := arr.Elem().Underlying().(*types.Interface); !ok || it.NumMethods() != 0 {
 		return nil, false
 	}
-	stores := 0
+	ops := make([]ssa.Value, arr.Len())
 	for _, r := range *al.Referrers() {
 		switch r := r.(type) {
 		case *ssa.Slice:
@@ -1370,13 +1371,21 @@ func (fx *FuncCtx) plainVariadic(st *State, a ssa.Value, v *Val) ([]*Val, bool) 
 				return nil, false
 			}
 		case *ssa.IndexAddr:
+			ic, ok := r.Index.(*ssa.Const)
+			if !ok {
+				return nil, false
+			}
+			k, ok := constant.Int64Val(ic.Value)
+			if !ok || k < 0 || k >= arr.Len() {
+				return nil, false
+			}
 			for _, rr := range *r.Referrers() {
 				s, ok := rr.(*ssa.Store)
-				if !ok || s.Addr != r {
+				if !ok || s.Addr != r || ops[k] != nil {
 					return nil, false
 				}
 				if isStr {
-					stores++
+					ops[k] = s.Val
 					continue
 				}
 				mi, ok := s.Val.(*ssa.MakeInterface)
@@ -1384,27 +1393,36 @@ func (fx *FuncCtx) plainVariadic(st *State, a ssa.Value, v *Val) ([]*Val, bool) 
 					return nil, false
 				}
 				t := mi.X.Type()
-				if _, ok := t.Underlying().(*types.Basic); !ok {
+				switch u := t.Underlying().(type) {
+				case *types.Basic:
+				case *types.Slice:
+					// a byte slice is rendered from its content: passed as a content snapshot
+					if b, ok := u.Elem().Underlying().(*types.Basic); !ok || b.Kind() != types.Uint8 {
+						return nil, false
+					}
+				default:
 					return nil, false
 				}
 				if types.NewMethodSet(t).Len() != 0 || types.NewMethodSet(types.NewPointer(t)).Len() != 0 {
 					return nil, false
 				}
-				stores++
+				ops[k] = mi.X
 			}
 		case *ssa.DebugRef:
 		default:
 			return nil, false
 		}
 	}
-	if int64(stores) != arr.Len() {
-		return nil, false
-	}
-	name, cs := elemComp(fx.u, arr.Elem())
-	h := fx.heapGet(st, name, cs)
 	var out []*Val
-	for i := int64(0); i < arr.Len(); i++ {
-		out = append(out, &Val{T: fmt.Sprintf("(select (select %s (sl_arr %s)) (+ (sl_off %s) %d))", h, v.T, v.T, i), Ty: arr.Elem()})
+	for _, o := range ops {
+		if o == nil {
+			return nil, false
+		}
+		v := fx.val(st, o)
+		if v == nil || v.T == "" {
+			return nil, false
+		}
+		out = append(out, v)
 	}
 	return out, true
 }
